@@ -348,7 +348,7 @@ Step(s, e) ==
    IF e.op = "begin" THEN
         IF e.r.k # "ok" \/ ~Has(e, "raw") THEN [s |-> Dead, v |-> {}, dev |-> {}, note |-> {"SKIPBEGIN"}]
         ELSE [s |-> Begin(e), v |-> BeginViol(e), dev |-> {}, note |-> {}]
-   ELSE IF s.dead \/ e.op = "end" THEN [s |-> s, v |-> {}, dev |-> {}, note |-> {}]
+   ELSE IF e.op = "end" \/ (s.dead /\ (e.op # "crash" \/ ~Has(s, "dur"))) THEN [s |-> s, v |-> {}, dev |-> {}, note |-> {}]
    ELSE IF e.op = "crash" THEN
         \* C14: the image a power cut leaves after the first e.p entries of the device write log
         LET rvc == IF Has(e, "rv") THEN e.rv ELSE s.crv
@@ -462,9 +462,19 @@ Step(s, e) ==
        opNodes == hnode \cup (IF e.op = "close_all" THEN {s.m.fh[h].node : h \in DOMAIN s.m.fh} ELSE {})
        pathsPre == {PathOf(s.m, i, 64) : i \in Ids(s.m)}
        pathsPost == {PathOf(m, i, 64) : i \in Ids(m)}
-       changedPaths == (pathsPre \ pathsPost) \cup (pathsPost \ pathsPre) \cup {PathOf(s.m, i, 64) : i \in opNodes \cap Ids(s.m)}
+       \* the objects a namespace call names (also when it fails: a failing create may write and take back slots in the directory)
+       named(at, pu) ==
+          LET st0 == StartNode(s, at) IN
+          IF st0 = -1 THEN {}
+          ELSE LET r0 == Resolve(s.m, st0, SplitPath(pu)) IN
+               IF r0.err # "none" THEN {} ELSE {PathOf(s.m, r0.par, 64)} \cup {PathOf(s.m, i, 64) : i \in r0.hit}
+       argPaths == IF e.op \in {"create_file", "create_dir", "remove"} /\ Has(e, "a") /\ Has(e.a, "pu") THEN named(Get(e.a, "at", ""), e.a.pu)
+                   ELSE IF e.op = "rename" /\ Has(e, "a") /\ Has(e.a, "su") THEN named(Get(e.a, "at", ""), e.a.su) \cup named(Get(e.a, "to", ""), e.a.du)
+                   ELSE {}
+       changedPaths == (pathsPre \ pathsPost) \cup (pathsPost \ pathsPre) \cup {PathOf(s.m, i, 64) : i \in opNodes \cap Ids(s.m)} \cup argPaths
        allowed == UNION {{SubSeq(p, 1, k) : k \in 0..Len(p)} : p \in changedPaths}
-       framed == rawChanged /\ e.op # "mount" /\ Len(s.raw.dirs) > 0
+       \* (with access-date updating on, reading a file or listing a directory stamps entries: the frames below do not apply)
+       framed == rawChanged /\ e.op # "mount" /\ Len(s.raw.dirs) > 0 /\ ~s.atime
        chainsOf(D, raw) == UNION ({ToSet(D.rows[i].w.ch) : i \in {x \in 1..Len(D.rows) : D.rows[x].p \in allowed}}
                                   \cup {IF <<>> \in allowed /\ IsFat32(raw) THEN ToSet(Walk(D.F, raw.g.rootc).ch) ELSE {}})
        \* clusters no entry references belong to a file whose entry lags behind (deferred write-back, C03 keeps them in check)
@@ -487,10 +497,30 @@ Step(s, e) ==
                                  \/ (i <= Len(post.dirs[b].sl) /\ post.dirs[b].sl[i].x = old.x)
                                  \/ old.t = "D"
                                  \/ \E r \in 1..Len(s.D.rows) : s.D.rows[r].dk = a /\ s.D.rows[r].e.first <= i /\ i <= s.D.rows[r].e.i
-                                                                /\ s.D.rows[r].p \in allowed)
+                                                                /\ s.D.rows[r].p \in allowed
+                                 \/ (s.D.paths[a] \in allowed /\ old.t = "S" /\ (IsDotName(old.n) \/ IsDotDotName(old.n))))
                    \cup Tag("C08.frame_bad", fatPre.bad = fatPost.bad)
+       \* a write into a directory (fixed root area or a cluster of a directory's chain) may touch only slots that were free,
+       \* that belong to an entry the call may change, or whose bytes it leaves as they were
+       slotOk(a, i) ==
+          LET old == s.raw.dirs[a].sl IN
+          \/ i > Len(old) \/ old[i].t = "D"
+          \/ \E r \in 1..Len(s.D.rows) : s.D.rows[r].dk = a /\ s.D.rows[r].e.first <= i /\ i <= s.D.rows[r].e.i /\ s.D.rows[r].p \in allowed
+          \/ \E b \in 1..Len(post.dirs) : post.dirs[b].id = s.raw.dirs[a].id /\ i <= Len(post.dirs[b].sl) /\ post.dirs[b].sl[i].x = old[i].x
+          \* the dot entries of a directory the call moves (its ".." follows the new parent)
+          \/ (s.D.paths[a] \in allowed /\ old[i].t = "S" /\ (IsDotName(old[i].n) \/ IsDotDotName(old[i].n)))
+       per == s.raw.g.cs \div 32
+       segSlotsOk(seg) ==
+          IF seg.r = "root" THEN
+             \A a \in 1..Len(s.raw.dirs) : s.raw.dirs[a].par = -1 => \A i \in seg.lo..seg.hi : slotOk(a, i)
+          ELSE IF seg.r = "clu" THEN
+             \A a \in 1..Len(s.raw.dirs) : \A j \in 1..Len(s.raw.dirs[a].ch) :
+                s.raw.dirs[a].ch[j] = seg.c =>
+                   \A i \in ((j - 1) * per + seg.o \div 32 + 1)..((j - 1) * per + (seg.o + seg.l - 1) \div 32 + 1) : slotOk(a, i)
+          ELSE TRUE
        c11o == Tag("C11.owner", \A i \in 1..Len(e.w) : e.w[i].r = "clu" =>
                        (IsFreeC(s.D.F, e.w[i].c) \/ e.w[i].c \in okClusters \/ ~InRangeC(s.D.F, e.w[i].c)))
+               \cup Tag("C11.dir_slots", e.op = "mount" \/ Len(s.raw.dirs) = 0 \/ s.atime \/ \A i \in 1..Len(e.w) : segSlotsOk(e.w[i]))
        v == os.v \cup st3.v \cup tv \cup c10 \cup c11 \cup c11o \cup c12 \cup c13 \cup c05 \cup c08
    IN [s |-> [s EXCEPT !.m = m, !.raw = post, !.D = Dp, !.rv = rv, !.sv = sv, !.svok = svok, !.dead = (\E t \in v : \E pfx \in {"C00.", "C01.", "C02.", "C04.", "C15."} : SubSeqStr(t, pfx)),
                        !.changed = changed, !.mountSt = mountSt, !.ro = ro, !.fiUsable = fiUsable, !.fiW = fiW, !.fiTrust = fiTrust,
